@@ -536,6 +536,9 @@ def __Solver_1(simu: "_Simu", problemType: "ProblemType") -> _types.FloatArray:
     x0 = x0[dofsUnknown]
 
     lb, ub = simu.Get_lb_ub(problemType)
+    if len(lb) > 0:
+        # bounds are given for every dof: keep those of the unknown dofs (as for x0)
+        lb, ub = lb[dofsUnknown], ub[dofsUnknown]
 
     bi -= Aic @ xc
     if MPI_SIZE == 1 and len(dofsUnknown) == 0:
